@@ -24,8 +24,9 @@ struct strto_integer_result {
 ///
 /// \details Skips white space and takes one optional sign, '+' or '-'. The digits are
 /// converted by to_integer in the unsigned type, so to_integer (and from_chars on top
-/// of it) keeps its own grammar, which has no '+'. If no conversion can be performed,
-/// end is str.data() and value is 0.
+/// of it) keeps its own grammar, which has no '+'. A '-' in front of an unsigned
+/// conversion negates in the unsigned type (strtoul("-1") is ULONG_MAX). If no
+/// conversion can be performed, end is str.data() and value is 0.
 template <integral Int>
 [[nodiscard]] constexpr auto strto_integer(string_view str, int base) noexcept -> strto_integer_result<Int>
 {
@@ -43,12 +44,6 @@ template <integral Int>
     if (pos != length and (str[pos] == '+' or str[pos] == '-')) {
         negative = str[pos] == '-';
         ++pos;
-    }
-
-    if constexpr (not signed_integral<Int>) {
-        if (negative) {
-            return failure;
-        }
     }
 
     constexpr auto options = to_integer_options{.skip_whitespace = false, .check_overflow = true};
